@@ -185,9 +185,9 @@ let minigo_line l =
   let afuel = nat_of_int 64 in
   let an = analyze_program afuel ctr pk prog in
   let head = match an with
-    | None -> Printf.sprintf "wf=%d an=0 gsafe=0 clocal=0 | | |" (if wf then 1 else 0)
+    | None -> Printf.sprintf "wf=%d guarded=%d an=0 gsafe=0 clocal=0 | | |" (if wf then 1 else 0) (if guarded prog then 1 else 0)
     | Some r ->
-        Printf.sprintf "wf=%d an=1 gsafe=%d clocal=%d | %s | %s | %s" (if wf then 1 else 0) (if r.r_gsafe then 1 else 0)
+        Printf.sprintf "wf=%d guarded=%d an=1 gsafe=%d clocal=%d | %s | %s | %s" (if wf then 1 else 0) (if guarded prog then 1 else 0) (if r.r_gsafe then 1 else 0)
           (if r.r_clocal then 1 else 0) (trigs r.r_decl)
           (String.concat " / " (List.map trigs r.r_funcs)) (String.concat " / " (List.map trigs r.r_dups)) in
   let xfuel = nat_of_int 20000 in
